@@ -16,6 +16,7 @@ Tie:          (i) codec: random Python value trees (tuples, nested dicts with in
 """
 from __future__ import annotations
 
+import contextlib
 import enum
 import io
 import json
@@ -475,16 +476,64 @@ def run_model(case):
             if a1.dtype != a2.dtype or not np.array_equal(a1, a2):
                 problems.append(("oracle-predict-differs-after-load", f"actions {a1.tolist()} became {a2.tolist()}"))
             # ---- replay buffer on its own
-            if hasattr(model, "replay_buffer") and model.replay_buffer is not None and env_kind != "her":
+            if hasattr(model, "replay_buffer") and model.replay_buffer is not None:
+                # (HER: load_replay_buffer(truncate_last_traj=False) must give the buffer back as it was; the default marks the
+                #  unfinished trajectory as finished, which is what truncate_last_trajectory() does to the original)
                 rp = os.path.join(d, "rb")
                 model.save_replay_buffer(rp if path_kind != "pathlib" else pathlib.Path(rp))
-                loaded.load_replay_buffer(rp if path_kind != "pathlib" else pathlib.Path(rp))
                 outb = []
+                if env_kind == "her":
+                    loaded.load_replay_buffer(rp if path_kind != "pathlib" else pathlib.Path(rp), truncate_last_traj=False)
+                    for k, v in vars(model.replay_buffer).items():
+                        if isinstance(v, (np.ndarray, int, bool, float, np.generic)) or (isinstance(v, dict) and all(isinstance(x, np.ndarray) for x in v.values())):
+                            deep_same(v, vars(loaded.replay_buffer).get(k), "replay_buffer(truncate_last_traj=False)." + k, outb)
+                    with warnings.catch_warnings():
+                        warnings.simplefilter("ignore")
+                        model.replay_buffer.truncate_last_trajectory()
+                loaded.load_replay_buffer(rp if path_kind != "pathlib" else pathlib.Path(rp))
                 for k, v in vars(model.replay_buffer).items():
                     if isinstance(v, (np.ndarray, int, bool, float, np.generic)):
                         deep_same(v, vars(loaded.replay_buffer).get(k), "replay_buffer." + k, outb)
+                    elif isinstance(v, dict) and all(isinstance(x, np.ndarray) for x in v.values()):
+                        deep_same(v, vars(loaded.replay_buffer).get(k), "replay_buffer." + k, outb)
                 if outb:
                     problems.append(("oracle-replay-buffer-not-restored", "; ".join(outb[:3])))
+            # ---- load(custom_objects=...): the given attributes replace the stored ones, everything else as stored
+            extra = os.path.join(d, "extra")
+            model.save(extra)
+            with contextlib.redirect_stdout(io.StringIO()) as sysinfo:
+                l2 = cls.load(extra, device="cpu", custom_objects={"gamma": 0.5, "learning_rate": 0.125}, print_system_info=True, **load_kw)
+            outc = []
+            if l2.gamma != 0.5 or l2.learning_rate != 0.125 or float(l2.lr_schedule(1.0)) != 0.125:
+                outc.append(f"custom gamma/learning_rate not used: {l2.gamma!r} {l2.learning_rate!r} {float(l2.lr_schedule(1.0))!r}")
+            for k in ("num_timesteps", "_n_updates", "batch_size", "policy_kwargs", "seed"):
+                if k in model.__dict__:
+                    attr_same(k, model.__dict__[k], l2.__dict__.get(k), outc)
+            deep_same(model.get_parameters(), l2.get_parameters(), "get_parameters()", outc)
+            if "Stable-Baselines3" not in sysinfo.getvalue():
+                outc.append("print_system_info=True printed nothing about the stored system")
+            if outc:
+                problems.append(("oracle-load-custom-objects", "; ".join(outc[:3])))
+            # ---- set_parameters(exact_match=False) with a partial dictionary: only the given objects change; exact_match=True refuses it
+            other = cls(policy, DummyVecEnv([env_fn]), seed=case.get("seed", 3) + 101, device="cpu", **kw())
+            keep = copy.deepcopy(other.get_parameters())
+            part = {"policy": copy.deepcopy(model.get_parameters()["policy"])}
+            outp = []
+            if len(keep) > 1:
+                try:
+                    other.set_parameters(part, exact_match=True)
+                    outp.append("exact_match=True accepted a dictionary without the optimizers")
+                    other.set_parameters(keep, exact_match=True)
+                except ValueError:
+                    pass
+            other.set_parameters(part, exact_match=False)
+            now = other.get_parameters()
+            deep_same(part["policy"], now["policy"], "policy", outp)
+            for k in keep:
+                if k != "policy" and not k.startswith("policy."):
+                    deep_same(keep[k], now[k], k, outp)
+            if outp:
+                problems.append(("oracle-set-parameters-partial", "; ".join(outp[:3])))
             # ---- can keep training
             n0 = loaded.num_timesteps
             try:
